@@ -10,12 +10,15 @@ preceded by a virtual delay:
 
     ['addDownload', u, dt] ['addUpload', u, dt] ['poke', dt]              (poke = any event that requests a cycle)
     ['net', k, outcome, poke, dt]      the pending network step of transfer k's task ends: ok | fail-conn | fail-write
-                                       (remote queue) / toQueue | fail | transferring | complete (initialisation);
+                                       (remote queue) / toQueue | fail | transferring | complete (upload initialisation) /
+                                       toQueue | timeout | transferring | incomplete | complete (download initialisation: the
+                                       file connection is delivered, breaks -> INCOMPLETE, or delivers everything);
                                        poke=True requests a cycle in the same step (cycle between task end and callback)
     ['preq', k, dt]                    the peer sends PeerTransferRequest for download k
     ['call', k, abort|pause|remove, poke_after|None, dt]   the call runs as its own task; a cycle request is made
                                        `poke_after` loop iterations later (i.e. while the call waits for its tasks)
     ['requeue', k, dt] ['wait', dt]
+    ['peerfail', k, dt]                the peer answers PeerTransferQueueFailed for download k (`state.fail(reason)`, cancels nothing)
 
 After the last op the loop runs for 120 virtual seconds (observation window).  Cycles, task first
 steps / ends / done-callbacks and call returns are logged where they happen and fed to the Lean
@@ -113,7 +116,7 @@ class _Run:
                         out = 'ok' if (g is not None and g.outcomes.get('send') == 'ok') else 'fail'
                     else:
                         st = transfer.state.VALUE.name
-                        out = {'QUEUED': 'toQueue', 'COMPLETE': 'complete'}.get(st, 'fail')
+                        out = {'QUEUED': 'toQueue', 'COMPLETE': 'complete', 'INCOMPLETE': 'incomplete'}.get(st, 'fail')
                     return res
                 except asyncio.CancelledError:
                     out = 'cancelled'
@@ -179,7 +182,8 @@ class _Run:
                 return
             akind = rig.attempt_kind.get((k, rig.attempts[k]))
             if akind == 'queue-remotely':
-                g.set('send', outcome if outcome in ('ok', 'fail-conn', 'fail-write') else 'fail-conn')
+                g.set('send', 'ok' if outcome in ('ok', 'transferring', 'complete') else
+                      'fail-write' if outcome in ('fail-write', 'toQueue') else 'fail-conn')
             elif akind == 'ul-init':
                 if at == 'send':
                     plan = {'toQueue': [('send', 'fail-conn')], 'fail': [('reply', 'deny'), ('send', 'ok')],
@@ -191,8 +195,27 @@ class _Run:
                 elif at == 'file':
                     g.set('file', 'ok' if outcome in ('complete', 'ok') else 'fail')
             elif akind == 'dl-init':
+                o = {'ok': 'transferring', 'fail-conn': 'incomplete', 'fail-write': 'toQueue'}.get(outcome, outcome)
+                if o not in ('toQueue', 'timeout', 'transferring', 'incomplete', 'complete'):
+                    o = 'incomplete'
                 if at == 'dreply':
-                    g.set('dreply', 'ok' if outcome in ('ok', 'transferring') else 'fail')
+                    if o == 'toQueue':
+                        g.set('dreply', 'fail')                 # our PeerTransferReply cannot be written: back to QUEUED
+                    elif o == 'timeout':
+                        g.set('dreply', 'ok')                   # the uploader never opens the file connection (60 s)
+                    else:
+                        # the uploader opens the file connection; the download starts; the connection then breaks
+                        # (INCOMPLETE), delivers everything (COMPLETE) or stays open (DOWNLOADING)
+                        g.set('offsetmsg', 'ok')
+                        if o == 'incomplete':
+                            g.set('file', 'fail')
+                        elif o == 'complete':
+                            g.set('file', 'ok')
+                        g.set('dreply', 'ok')
+                        await simloop.settle()
+                        rig.deliver_file_connection(k)
+                elif at == 'file':
+                    g.set('file', 'ok' if o in ('complete', 'transferring') else 'fail')
             if poke:
                 await self.poke()
             return
@@ -200,11 +223,25 @@ class _Run:
             if not t.is_download() or t not in mgr.transfers:
                 return
             before = {id(x): (x._remotely_queue_task, x._transfer_task) for x in mgr.transfers}
+            ticket = 9000 + len(self.ev)
+            rig.dl_ticket[ticket] = k
             await mgr._on_peer_transfer_request(
-                PeerTransferRequest.Request(direction=1, ticket=9000 + len(self.ev), filename=t.remote_path, filesize=10),
+                PeerTransferRequest.Request(direction=1, ticket=ticket, filename=t.remote_path, filesize=10),
                 FakeConn(rig, t.username))
             new = self._note_new_tasks(before, 'preq')
+            if new:
+                self.quiet[k] = False        # a FAILED download is re-queued by the peer's request
             self.ev.append(('preq', k, new, len(rig.log)))
+            return
+        if kind == 'peerfail':
+            # a legitimate peer message; not injected while a call on k waits (stale-state dispatch is C03)
+            if not t.is_download() or t not in mgr.transfers or k in self.pending_call:
+                return
+            from aioslsk.protocol.messages import PeerTransferQueueFailed
+            before = t.state.VALUE.name
+            await mgr._on_peer_transfer_queue_failed(
+                PeerTransferQueueFailed.Request(filename=t.remote_path, reason='File not shared.'), FakeConn(rig, t.username))
+            self.ev.append(('peerfail', k, before, t.state.VALUE.name, len(rig.log)))
             return
         if kind == 'requeue':
             if t not in mgr.transfers or t.state.VALUE.name not in ('ABORTED', 'PAUSED', 'COMPLETE', 'INCOMPLETE', 'FAILED'):
@@ -222,7 +259,7 @@ class _Run:
 
             async def do_call():
                 self.pending_call[k] = c
-                self.ev.append(('call', k, c, len(rig.log)))
+                self.ev.append(('call', k, c, t.state.VALUE.name, len(self.live_tasks().get(k, [])), len(rig.log)))
                 try:
                     if c == 'abort':
                         await mgr.abort(t)
@@ -286,7 +323,12 @@ class _Run:
                            'live': {str(k): v for k, v in live.items()}})
 
 
-def _run_impl(case: dict) -> dict:
+WALL = 4.0            # per-case wall-clock guard (a healthy case takes a few ms)
+WALL_CONFIRM = 8.0   # a guard hit is re-run once, alone, with this guard before it counts
+MAX_HANGS = 2         # stop evaluating further cases after this many confirmed hangs (they are violations already)
+
+
+def _run_impl(case: dict, wall: float = WALL) -> dict:
     async def main(loop):
         run = _Run(loop, case)
         await run.mgr.start()
@@ -295,7 +337,7 @@ def _run_impl(case: dict) -> dict:
             *body, dt = op
             if dt > 0:
                 await asyncio.sleep(dt)
-            if body[0] in ('net', 'preq'):
+            if body[0] in ('net', 'preq', 'peerfail'):
                 await simloop.settle()
             run.ev.append(('op', body[0]))
             await run.perform(body)
@@ -306,22 +348,83 @@ def _run_impl(case: dict) -> dict:
             await asyncio.sleep(WINDOW / 4)
             await simloop.settle()
             run.snapshot()
+        # a call that has not returned by the end of the window never will (nothing but its own tasks can block it);
+        # found in VIRTUAL time, so it costs no wall-clock time
+        for k, c in sorted(run.pending_call.items()):
+            run.ev.append(('call-pending', k, c))
         for c in run.calls:
             if not c.done():
                 c.cancel()
-        tasks = await run.mgr.stop()
-        await asyncio.gather(*tasks, return_exceptions=True)
+        if run.calls:
+            await asyncio.wait(run.calls, timeout=10)
+        tasks = [t for t in await run.mgr.stop() if t is not None]
+        left = []
+        if tasks:
+            _done, pend = await asyncio.wait(tasks, timeout=10)          # 10 virtual seconds
+            left = sorted(t.get_name() for t in pend)
+            for t in pend:
+                t.cancel()
+            if pend:
+                await asyncio.wait(pend, timeout=10)
+        run.rig.cleanup()
         return {'ev': [list(e) for e in run.ev], 'snaps': run.snaps, 'log': [list(e) for e in run.rig.log],
-                'granularity': run.rig.granularity}
+                'granularity': run.rig.granularity, 'stop_left': left}
 
-    res, loop = simloop.run(main, wall_timeout=10.0)
+    res, loop = _guarded_run(main, wall)
     res['loop_exceptions'] = [e for e in loop.exceptions if e.get('type') not in (None, 'CancelledError')]
     return res
 
 
-def _eval_case(case):
+class _Guard(KeyboardInterrupt):
+    """Raised by the wall-clock alarm.  asyncio stores any other exception raised inside a task step as that task's
+    result (so a busy loop inside abort() would swallow the guard of `simloop.run`); KeyboardInterrupt is re-raised
+    out of `run_until_complete`."""
+
+
+def _guarded_run(main, wall: float):
+    """`simloop.run` with a repeating alarm that also gets out of busy loops inside sub-tasks and inside clean-up."""
+    import signal
+    loop = simloop.SimLoop()
+    asyncio.set_event_loop(loop)
+
+    def on_alarm(signum, frame):
+        raise _Guard()
+
+    old = signal.signal(signal.SIGALRM, on_alarm)
     try:
-        return _run_impl(case)
+        signal.setitimer(signal.ITIMER_REAL, wall, 1.0)
+        try:
+            with simloop.patched_clock(loop):
+                res = loop.run_until_complete(main(loop))
+            return res, loop
+        finally:
+            for _ in range(3):
+                try:
+                    pending = [t for t in asyncio.all_tasks(loop) if not t.done()]
+                    for t in pending:
+                        t.cancel()
+                    if pending:
+                        loop.run_until_complete(asyncio.gather(*pending, return_exceptions=True))
+                    break
+                except _Guard:
+                    continue
+                except BaseException:
+                    break
+    except _Guard:
+        raise TimeoutError('wall-clock guard: the case does not come to rest') from None
+    finally:
+        signal.setitimer(signal.ITIMER_REAL, 0)
+        signal.signal(signal.SIGALRM, old)
+        asyncio.set_event_loop(None)
+        try:
+            loop.close()
+        except BaseException:
+            pass
+
+
+def _eval_case(case, wall: float = WALL):
+    try:
+        return _run_impl(case, wall)
     except AssertionError:
         raise
     except (TimeoutError, RuntimeError) as e:
@@ -330,6 +433,30 @@ def _eval_case(case):
     except Exception as e:
         import traceback
         return {'harness_error': f'{type(e).__name__}: {e}', 'tb': traceback.format_exc()[-2000:]}
+
+
+def _eval_all(cases: list) -> tuple[list, int]:
+    """Evaluates the cases in growing batches; a wall-guard hit is confirmed by a second, serial run with a longer
+    guard; after MAX_HANGS confirmed hangs the remaining cases are not run (returns results, number skipped)."""
+    out: list = []
+    hangs = 0
+    i = 0
+    for size in (len(DIRECTED) + 24, 96, len(cases)):
+        batch = cases[i:i + size]
+        if not batch:
+            break
+        res = common.parallel_map(_eval_case, batch)
+        for c, r in zip(batch, res):
+            if r.get('hang') and hangs < MAX_HANGS:
+                r2 = _eval_case(c, WALL_CONFIRM)
+                if r2.get('hang'):
+                    hangs += 1
+                r = r2
+            out.append(r)
+        i += len(batch)
+        if hangs >= MAX_HANGS:
+            break
+    return out, len(cases) - i
 
 
 # --------------------------------------------------------------------------------------------
@@ -385,6 +512,9 @@ def _script(impl: dict) -> tuple[list[str], list[Optional[str]], list[str]]:
         elif tag == 'requeue':
             lines.append(f'requeue {e[1]}')
             want.append(None)
+        elif tag == 'peerfail':
+            lines.append(f'peerfail {e[1]}')
+            want.append(None)
     attach(len(ev))
     return lines, want
 
@@ -421,6 +551,11 @@ def _monitor(case: dict, impl: dict) -> list[Violation]:
             'busy loop): ' + impl['hang'], None, 'abort / pause / remove return')
         return vs
     ev, log, snaps = impl['ev'], impl['log'], impl['snaps']
+    for e in ev:
+        if e[0] == 'call-pending':
+            add('C06-call-never-returns', f'{e[2]} of transfer {e[1]} has not returned {int(WINDOW)} virtual seconds after it '
+                'was called: it waits for a task of the transfer that it did not cancel',
+                {'stop_left': impl.get('stop_left')}, 'cancelling the transfer cancels all of it; the call returns')
     # single flight: at every observation point every live transfer task is the one in its slot, one per slot
     for s in snaps:
         for k, lst in s['live'].items():
@@ -444,7 +579,7 @@ def _monitor(case: dict, impl: dict) -> list[Violation]:
         end = len(ev)
         for j in range(i + 1, len(ev)):
             x = ev[j]
-            if (x[0] in ('requeue', 'call') and x[1] == k) or (x[0] == 'preq' and x[1] == k):
+            if x[0] in ('requeue', 'call', 'preq', 'peerfail') and x[1] == k:
                 end = j
                 break
         # task activity for k inside (i, end)
@@ -494,7 +629,8 @@ def _monitor(case: dict, impl: dict) -> list[Violation]:
 # --------------------------------------------------------------------------------------------
 
 def _gen_case(rng: random.Random, max_ops: int = 12) -> dict:
-    profile = rng.choice(['hang-cycles', 'hang-cycles', 'mixed', 'mixed', 'uploads', 'callback-race', 'call-race'])
+    profile = rng.choice(['hang-cycles', 'hang-cycles', 'mixed', 'mixed', 'uploads', 'callback-race', 'call-race',
+                          'peer-refuses', 'peer-refuses', 'incomplete-retry', 'incomplete-retry', 'both-slots'])
     ops: list[list] = []
     npeers = rng.randint(1, 2)
     per_peer = rng.randint(1, 3)
@@ -510,6 +646,35 @@ def _gen_case(rng: random.Random, max_ops: int = 12) -> dict:
     n = len(dirs)
     DT = [0, 0, 0.02, 0.05, 0.05, 0.1, 0.3, 5.0]
     called: set = set()
+    if profile == 'incomplete-retry':
+        # download 0 gets through to DOWNLOADING and its file connection breaks: INCOMPLETE, the next cycle starts the
+        # automatic retry, whose connect hangs; optionally that attempt fails (a cycle runs before its done-callback:
+        # the INCOMPLETE -> QUEUED transition requests it) and the next one hangs
+        k0 = next((i for i, d in enumerate(dirs) if d == 'D'), None)
+        if k0 is not None:
+            ops += [['net', k0, 'ok', False, rng.choice([0.05, 0.3])], ['preq', k0, rng.choice([0.05, 0.3])],
+                    ['net', k0, 'incomplete', rng.random() < 0.3, rng.choice([0.05, 0.3])]]
+            if rng.random() < 0.4:
+                ops.append(['net', k0, 'fail-conn', rng.random() < 0.3, rng.choice([0.3, 0.3, 0.05, 5.0])])
+            if rng.random() < 0.7:
+                ops.append(['call', k0, rng.choice(['abort', 'pause', 'pause', 'remove']), rng.choice([None, 0, 1, 2, 3]),
+                            rng.choice([0.05, 0.3, 0.3])])
+                called.add(k0)
+                ops.append(['net', k0, 'ok', rng.random() < 0.3, rng.choice(DT)])
+    elif profile == 'both-slots':
+        # the remote-queue attempt hangs on its connect while the peer already sends PeerTransferRequest: both task
+        # slots are occupied when the user calls
+        k0 = next((i for i, d in enumerate(dirs) if d == 'D'), None)
+        if k0 is not None:
+            ops += [['preq', k0, rng.choice([0.05, 0.3])]]
+            if rng.random() < 0.5:
+                ops.append(['poke', rng.choice(DT)])
+            ops.append(['call', k0, rng.choice(['abort', 'pause', 'remove']), rng.choice([None, 0, 1, 2, 3]),
+                        rng.choice([0.05, 0.3])])
+            called.add(k0)
+            ops.append(['net', k0, rng.choice(['transferring', 'ok', 'complete', 'incomplete']), rng.random() < 0.3,
+                        rng.choice(DT)])
+            ops.append(['net', k0, 'ok', False, rng.choice(DT)])
     for _ in range(rng.randint(3, max_ops)):
         dt = rng.choice(DT)
         r = rng.random()
@@ -518,13 +683,22 @@ def _gen_case(rng: random.Random, max_ops: int = 12) -> dict:
             ops.append(['poke', dt])
         elif r < 0.45:
             if dirs[k] == 'D':
-                out = rng.choice(['ok', 'ok', 'fail-conn', 'fail-write'])
+                out = rng.choice(['ok', 'ok', 'ok', 'fail-conn', 'fail-conn', 'fail-write', 'incomplete', 'incomplete',
+                                  'transferring', 'complete', 'timeout'])
             else:
                 out = rng.choice(['toQueue', 'toQueue', 'fail', 'transferring', 'complete'])
             poke = rng.random() < (0.7 if profile == 'callback-race' else 0.25)
             ops.append(['net', k, out, poke, dt])
         elif r < 0.52 and dirs[k] == 'D':
             ops.append(['preq', k, dt])
+        elif r < (0.66 if profile == 'peer-refuses' else 0.56) and dirs[k] == 'D':
+            ops.append(['peerfail', k, dt])
+            if profile == 'peer-refuses' and rng.random() < 0.6:
+                # removal of the refused download while its attempt is still in flight, then the connect gets through
+                ops.append(['call', k, rng.choice(['remove', 'remove', 'abort']), rng.choice([None, 0, 1, 2, 3]),
+                            rng.choice(DT)])
+                called.add(k)
+                ops.append(['net', k, rng.choice(['ok', 'ok', 'fail-conn']), rng.random() < 0.3, rng.choice(DT)])
         elif r < 0.80:
             c = rng.choice(['abort', 'abort', 'pause', 'remove'])
             pa = rng.choice([None, 0, 1, 2, 3, 4]) if profile != 'call-race' else rng.choice([0, 1, 2, 3, 4])
@@ -555,6 +729,36 @@ DIRECTED = [
     {'kind': 'directed-upload', 'slots': 1, 'ops': [
         ['addUpload', 0, 0], ['net', 0, 'toQueue', True, 0.3], ['call', 0, 'abort', 1, 0.3], ['net', 0, 'transferring', False, 0.3],
         ['requeue', 0, 1.0], ['net', 0, 'complete', False, 0.3], ['wait', 1.0]]},
+    # the peer refuses the queue request while the attempt still connects: FAILED (abort refuses it) with a live task;
+    # remove must cancel it — afterwards the connect succeeds
+    {'kind': 'directed-remove-failed-live-task', 'slots': 2, 'ops': [
+        ['addDownload', 0, 0], ['peerfail', 0, 0.3], ['call', 0, 'remove', None, 0.3], ['net', 0, 'ok', False, 0.3],
+        ['wait', 1.0]]},
+    # same through a second attempt: queued remotely, peer goes offline->online is not needed: the first attempt failed,
+    # the retry hangs, the peer's refusal of an earlier request arrives, remove while a cycle is requested
+    {'kind': 'directed-remove-failed-retry', 'slots': 2, 'ops': [
+        ['addDownload', 0, 0], ['net', 0, 'fail-conn', True, 0.3], ['peerfail', 0, 0.3], ['poke', 0.3],
+        ['call', 0, 'remove', 2, 0.3], ['net', 0, 'ok', True, 0.3], ['wait', 1.0]]},
+    # a download whose file connection broke (INCOMPLETE) is retried by the next cycle; the retry's connect hangs; pause /
+    # abort at that point; then the connect succeeds
+    {'kind': 'directed-incomplete-retry-pause', 'slots': 2, 'ops': [
+        ['addDownload', 0, 0], ['net', 0, 'ok', False, 0.3], ['preq', 0, 0.3], ['net', 0, 'incomplete', False, 0.3],
+        ['call', 0, 'pause', None, 0.3], ['net', 0, 'ok', False, 0.3], ['wait', 1.0]]},
+    {'kind': 'directed-incomplete-retry-abort', 'slots': 2, 'ops': [
+        ['addDownload', 0, 0], ['net', 0, 'ok', False, 0.3], ['preq', 0, 0.3], ['net', 0, 'incomplete', False, 0.3],
+        ['call', 0, 'abort', 1, 0.3], ['net', 0, 'ok', False, 0.3], ['wait', 1.0]]},
+    # the retry of the INCOMPLETE download fails: INCOMPLETE -> QUEUED requests a cycle that runs before the failed
+    # attempt's done-callback; abort while the next attempt hangs
+    {'kind': 'directed-incomplete-callback-race', 'slots': 2, 'ops': [
+        ['addDownload', 0, 0], ['net', 0, 'ok', False, 0.3], ['preq', 0, 0.3], ['net', 0, 'incomplete', False, 0.3],
+        ['net', 0, 'fail-conn', False, 0.3], ['call', 0, 'abort', None, 0.3], ['net', 0, 'ok', False, 0.3], ['wait', 1.0]]},
+    # both slots occupied: the remote-queue attempt hangs while the peer's transfer request starts the initialisation
+    {'kind': 'directed-both-slots-abort', 'slots': 2, 'ops': [
+        ['addDownload', 0, 0], ['preq', 0, 0.3], ['call', 0, 'abort', None, 0.3], ['net', 0, 'transferring', False, 0.3],
+        ['net', 0, 'ok', False, 0.3], ['wait', 1.0]]},
+    {'kind': 'directed-both-slots-pause', 'slots': 2, 'ops': [
+        ['addDownload', 0, 0], ['preq', 0, 0.3], ['call', 0, 'pause', 2, 0.3], ['net', 0, 'complete', False, 0.3],
+        ['wait', 1.0]]},
     # peer request while the remote-queue attempt still hangs, initialisation fails, remove
     {'kind': 'directed-remove', 'slots': 2, 'ops': [
         ['addDownload', 0, 0], ['preq', 0, 0.3], ['net', 0, 'fail', False, 0.3], ['wait', 61.0], ['call', 0, 'remove', None, 0.3],
@@ -571,6 +775,16 @@ def _features(case, impl) -> set:
             feats.add('call-returned-' + e[2])
         if e[0] == 'call-refused':
             feats.add('call-refused')
+        if e[0] == 'call' and e[2] == 'remove' and e[4] > 0 and e[3] in ('FAILED', 'COMPLETE', 'ABORTED', 'VIRGIN'):
+            feats.add('remove-in-state-refusing-abort-with-live-task')
+        if e[0] == 'peerfail' and e[2] != e[3]:
+            feats.add('peer-refused-queue-request')
+        if e[0] == 'call' and e[3] == 'INCOMPLETE' and e[4] > 0:
+            feats.add('call-on-INCOMPLETE-with-live-retry')
+        if e[0] == 'call' and e[4] >= 2:
+            feats.add('call-with-both-slots-occupied')
+        if e[0] == 'tend' and e[2] in ('incomplete', 'complete', 'transferring'):
+            feats.add('download-or-upload-' + e[2])
         if e[0] == 'tend' and e[2] == 'cancelled':
             feats.add('task-cancelled-while-running')
         if e[0] == 'tstart' and i + 1 < len(ev) and ev[i + 1][0] == 'tcb' and ev[i + 1][1] == e[1]:
@@ -645,7 +859,11 @@ class C06(Property):
     def correspondence(self, seed, tier, model_ok, widen=1):
         res = KResult()
         cases = self._cases(seed, tier, widen)
-        impl = common.parallel_map(_eval_case, cases)
+        impl, skipped = _eval_all(cases)
+        if skipped:
+            res.notes.append(f'{skipped} cases not run: {MAX_HANGS} cases did not come to rest on the real code')
+            res.count('skipped-after-hangs', skipped)
+            cases = cases[:len(impl)]
         for c, io in zip(cases, impl):
             if io.get('harness_error'):
                 raise RuntimeError(f'C06 harness error: {io["harness_error"]}\n{io.get("tb")}\ncase={c}')
